@@ -9,9 +9,18 @@ package dot
 //@ pure func graphOK(dg *Graph) Bool = dg != nil && dg.ctorMap != nil && dg.groupMap != nil && dg.consumers != nil && dg.Failed != nil
 //@     && dg.Failed.ctors != nil && dg.Failed.groups != nil && (forall id CtorID :: id in dg.ctorMap ==> dg.ctorMap[id] != nil)
 
+// every result drawn in a cluster exists and has its node; the lists of failed
+// results never share storage with a cluster's result list (appending to
+// them leaves every cluster as it is)
+//@ pure func resultsOK(dg *Graph) Bool = forall id CtorID, j int :: id in dg.ctorMap && 0 <= j && j < len(dg.ctorMap[id].Results) ==> dg.ctorMap[id].Results[j] != nil && dg.ctorMap[id].Results[j].Node != nil
+//@ pure func failedListsSeparate(dg *Graph) Bool = forall id CtorID :: id in dg.ctorMap ==> len(dg.ctorMap[id].Results) == 0
+//@     || (dg.ctorMap[id].Results.arr != dg.Failed.RootCauses.arr && dg.ctorMap[id].Results.arr != dg.Failed.TransitiveFailures.arr && dg.ctorMap[id].Results.arr <= $alloc && dg.ctorMap[id].Results.arr > 0)
+//@ pure func drawnOK(dg *Graph) Bool = graphOK(dg) && resultsOK(dg) && failedListsSeparate(dg)
+
 //@ func NewGraph() (dg)
-//@   allocates
+//@   allocates plain
 //@   ensures[C19:a-new-graph-is-empty] graphOK(dg) && fresh(dg) && len(dg.Ctors) == 0 && len(dg.Groups) == 0 && len(dg.Failed.RootCauses) == 0 && len(dg.Failed.TransitiveFailures) == 0
+//@   ensures[C19:a-new-graph-is-well-formed] drawnOK(dg)
 
 // Failure colouring: the first failure recorded in a graph is the root cause,
 // every later one is a transitive failure; "first" means that no root cause
@@ -26,9 +35,15 @@ package dot
 //@   ensures[C19:a-later-failure-joins-the-transitive-failures] !isRootCause ==> len(dg.Failed.TransitiveFailures) == old(len(dg.Failed.TransitiveFailures)) + 1
 //@        && dg.Failed.TransitiveFailures[len(dg.Failed.TransitiveFailures) - 1] == r && dg.Failed.RootCauses == old(dg.Failed.RootCauses)
 //@   ensures forall f *FailedNodes :: existed(f) && f != dg.Failed ==> f.RootCauses == old(f.RootCauses) && f.TransitiveFailures == old(f.TransitiveFailures)
+//@   ensures[C19:recording-a-failure-writes-only-the-failure-list] isRootCause ? keptExcept(old(dg.Failed.RootCauses).arr, elems(ptr(Result))) : keptExcept(old(dg.Failed.TransitiveFailures).arr, elems(ptr(Result)))
+//@   ensures[C19:the-failure-list-grows-in-place-or-moves-to-new-storage] (dg.Failed.RootCauses.arr == old(dg.Failed.RootCauses).arr || fresh(dg.Failed.RootCauses)) && (dg.Failed.TransitiveFailures.arr == old(dg.Failed.TransitiveFailures).arr || fresh(dg.Failed.TransitiveFailures))
 
 //@ func (dg *Graph) FailNodes(results, id) ()
-//@   requires graphOK(dg)
+//@   requires drawnOK(dg)
+//@   ensures[C19:marking-failures-keeps-every-cluster] drawnOK(dg)
+//@   loop range results #1: invariant kept(map(Graph.ctorMap), Ctor.Results, Result.Node)
+//@   loop range results #1: invariant[C19:lists-separate-so-far] failedListsSeparate(dg)
+//@   loop range results #1: invariant[C19:clusters-kept-so-far] resultsOK(dg)
 //@   modifies FailedNodes.RootCauses, FailedNodes.TransitiveFailures, elems(*Result), map(FailedNodes.ctors), Ctor.ErrorType
 //@   allocates
 //@   let first = old(len(dg.Failed.RootCauses) == 0)
@@ -40,7 +55,11 @@ package dot
 //@   site call (*dot.Graph).failNode #1: assert[C19:results-fail-with-the-constructors-classification] $arg0 == results[$i] && $arg1 == first
 
 //@ func (dg *Graph) AddMissingNodes(results) ()
-//@   requires graphOK(dg)
+//@   requires drawnOK(dg)
+//@   ensures[C19:marking-missing-types-keeps-every-cluster] drawnOK(dg)
+//@   loop range results #1: invariant kept(map(Graph.ctorMap), Ctor.Results, Result.Node)
+//@   loop range results #1: invariant[C19:lists-separate-so-far] failedListsSeparate(dg)
+//@   loop range results #1: invariant[C19:clusters-kept-so-far] resultsOK(dg)
 //@   modifies FailedNodes.RootCauses, FailedNodes.TransitiveFailures, elems(*Result)
 //@   allocates
 //@   let first = old(len(dg.Failed.RootCauses) == 0)
@@ -57,7 +76,11 @@ package dot
 
 //@ func (dg *Graph) FailGroupNodes(name, t, id) ()
 //@   requires graphOK(dg)
-//@   requires id in dg.ctorMap ==> dg.ctorMap[id] != nil && (forall j int :: 0 <= j && j < len(dg.ctorMap[id].Results) ==> dg.ctorMap[id].Results[j] != nil && dg.ctorMap[id].Results[j].Node != nil)
+//@   requires resultsOK(dg) && failedListsSeparate(dg)
+//@   ensures[C19:marking-a-failed-group-keeps-every-cluster] drawnOK(dg)
+//@   loop range dg.ctorMap[id].Results #1: invariant kept(Result.Node)
+//@   loop range dg.ctorMap[id].Results #1: invariant[C19:lists-separate-so-far] failedListsSeparate(dg)
+//@   loop range dg.ctorMap[id].Results #1: invariant[C19:clusters-kept-so-far] resultsOK(dg)
 //@   modifies FailedNodes.RootCauses, FailedNodes.TransitiveFailures, elems(*Result), map(FailedNodes.ctors), map(FailedNodes.groups), Ctor.ErrorType, Group.ErrorType, Graph.Groups, elems(*Group), map(Graph.groupMap)
 //@   allocates
 //@   let first = old(len(dg.Failed.RootCauses) == 0)
@@ -71,7 +94,21 @@ package dot
 //@ func (dg *Graph) AddCtor(c, paramList, resultList) ()
 //@   trusted
 //@   requires graphOK(dg) && c != nil
+// the cluster's result list is the list it is given: it must hold well-formed
+// results and must not be the storage of a failure list
+//@   requires[C19:drawn-results-are-well-formed] forall j int :: 0 <= j && j < len(resultList) ==> resultList[j] != nil && resultList[j].Node != nil
+//@   requires[C19:drawn-result-list-is-not-a-failure-list] len(resultList) == 0 || (resultList.arr != dg.Failed.RootCauses.arr && resultList.arr != dg.Failed.TransitiveFailures.arr && resultList.arr <= $alloc && resultList.arr > 0)
+//@   ensures old(resultsOK(dg) && failedListsSeparate(dg)) ==> resultsOK(dg) && failedListsSeparate(dg)
 //@   modifies Graph.Ctors, elems(*Ctor), map(Graph.ctorMap), map(Graph.consumers), Graph.Groups, elems(*Group), map(Graph.groupMap), Ctor.Params, Ctor.GroupParams, Ctor.Results, Result.GroupIndex, Group.Results, elems(*Result), elems(*Param)
 //@   allocates plain
 //@   ensures graphOK(dg) && len(dg.Ctors) == old(len(dg.Ctors)) + 1 && dg.Ctors[len(dg.Ctors) - 1] == c
 //@   ensures forall i int :: 0 <= i && i < old(len(dg.Ctors)) ==> dg.Ctors[i] == old(dg.Ctors[i])
+
+// Pruning (not verified): removes the clusters and groups that did not fail.
+//@ func (dg *Graph) PruneSuccess() ()
+//@   trusted
+//@   requires graphOK(dg)
+//@   modifies Graph.Ctors, elems(*Ctor), Graph.Groups, elems(*Group), map(Graph.ctorMap), map(Graph.groupMap), Ctor.Params, Ctor.GroupParams, elems(*Param), Group.Results, elems(*Result)
+//@   allocates
+//@   ensures graphOK(dg)
+
